@@ -449,6 +449,46 @@ def _lift_c04_12(cx, rep, rid):
     lift_rule(cx, rep, rid, "C04", ["C04.12"], "so a case of the dispatch table no longer declares the discriminator (narrowed to the entry's key): under disallowExtraProperties the closed case object rejects the discriminator itself as an extra key - every value of a shared-literal variant is rejected in strict mode")
 
 
+# ---------------------------------------------------------------------------------------------------- C03.26
+def no_method_of_the_input_rule(cx, rep, rid):
+    """The input is arbitrary: an array may carry an OWN property called `map`, an object one called `hasOwnProperty`.
+    A validator method that calls `input.m(..)` runs whatever the input stores under `m` - validate() (which looks at
+    `Array.isArray` and the items) accepts `a = [1, 2]; a.map = () => "x"`, and parse returns "x", which the same
+    validator rejects.  Decided: in the validate / parseAfterValidation / reportDecodeError methods of the runtime
+    classes no call has the method's input parameter itself (through casts and parentheses) as the object of its
+    callee; iteration uses index loops, `for..of`, or `X.prototype.m.call(input, ..)`."""
+    from rules.ts_common import Family, fn_params
+    fam = Family(cx)
+    mod = fam.mod
+    n = 0
+
+    def strip(e):
+        while isinstance(e, dict) and e.get("type") in ("ParenthesisExpression", "TsAsExpression", "TsNonNullExpression", "TsTypeAssertion", "TsConstAssertion", "TsSatisfiesExpression"):
+            e = e["expression"]
+        return e
+    for cname, c in sorted(fam.classes.items()):
+        for mname in ("validate", "parseAfterValidation", "reportDecodeError"):
+            m = c.methods.get(mname)
+            fn = m.get("function") if m else None
+            if fn is None or fn.get("body") is None:
+                continue
+            ps = fn_params(fn)
+            if len(ps) < 2:
+                continue
+            inp = ps[1]
+            n += 1
+            bad = []
+            for x in twalk(fn):
+                if x["type"] == "CallExpression" and x["callee"].get("type") == "MemberExpression":
+                    o = strip(x["callee"]["object"])
+                    if o.get("type") == "Identifier" and o["value"] == inp:
+                        bad.append(x)
+            rep.ob(rid, "%s.%s/no-method-of-the-input" % (cname, mname), not bad,
+                   "%s.%s calls `%s` - a method looked up on the input itself: an input that carries an own property of that name (an array with its own `map`) has THAT called; validate() accepts the value and the result is whatever the input's function returns, which the same validator rejects" % (cname, mname, (ts_s(bad[0]["callee"]) or "?")[:50] if bad else "?"),
+                   mod.loc(bad[0]) if bad else mod.loc(fn), sample={"class": cname, "method": mname})
+    rep.floor(rid, "validate / parse / report methods of the runtime classes", n, 40)
+
+
 REGISTRY = {
     "C11": [("C11.11", "the cases of a discriminated union's dispatch table declare the discriminator, narrowed to the case's key (C04.12 lifted): a case that drops the key rejects it as extra in strict mode", _lift_c04_12)],
     "C15": [("C15.20", "the flat variant list of a discriminated union holds the variants as they are (copying adaptors only)", flat_variants_verbatim_rule)],
@@ -456,7 +496,8 @@ REGISTRY = {
     "C13": [("C13.16", "hash256 is structure-directed: no instanceof on a child, no look-through of references outside the reference classes (= C08.20)", digest_structure_directed_rule),
             ("C13.15", "the digest context carries path bookkeeping only: every table added to is also removed from in the same method", digest_context_pairing_rule)],
     "C08": [("C08.20", "hash256 is structure-directed: no instanceof on a child, no look-through of references outside the reference classes", digest_structure_directed_rule)],
-    "C03": [("C03.25", "validate() methods never change a field of the context they are handed", validate_context_not_assigned_rule)],
+    "C03": [  # C03.26 is armed together with the repair it found (see PENDING below)
+            ("C03.25", "validate() methods never change a field of the context they are handed", validate_context_not_assigned_rule)],
     "C04": [("C04.15", "the visitor that discovers the buildParsers call prunes no node kind (no empty visit_* override)", visitor_not_pruned_rule)],
     "C09": [("C09.24", "the search through the `export *` targets of a module is ended only by a hit", star_search_rule)],
     "C12": [("C12.16", "a reporter hands its branches a fresh scratch path (no path state on the validator instance)", fresh_scratch_path_rule)],
@@ -468,3 +509,6 @@ REGISTRY = {
     "C02": [("C02.26", "the null-branch remover answers `null` whenever it removed nothing (contract with ObjectRuntype.schema's `required`)", null_branch_contract_rule),
             ("C02.25", "schema() methods never assign a field of the printing context (= C16.13)", schema_context_not_assigned_rule)],
 }
+
+# armed by the commit that carries the repair of ArrayRuntype.parseAfterValidation (`input.map`)
+PENDING = {"C03": [("C03.26", "no validate / parse / report method calls a method looked up on the input itself", no_method_of_the_input_rule)]}
